@@ -203,4 +203,21 @@ Section Facts.
     rewrite skipn_app. rewrite skipn_all. rewrite Nat.sub_diag. reflexivity. Qed.
   Lemma pop_to_same (b : env) : pop_to (length b) b = b.
   Proof. apply (pop_to_app [] b). Qed.
+
+  (* side-effect-free-on-the-environment expressions: constants, variables, probe calls, arithmetic.
+     pure_eval en e v t : e denotes v in en and logs the events t *)
+  Inductive pure_eval (en : env) : expr -> val -> trace -> Prop :=
+    | PE_const v : pure_eval en (EConst v) v []
+    | PE_var x v : lookup en x = Some v -> pure_eval en (EVar x) v []
+    | PE_probe id a v t : pure_eval en a v t -> pure_eval en (EProbe id a) v (t ++ [Ev id [v]])
+    | PE_bin op a b x y v ta tb : pure_eval en a x ta -> pure_eval en b y tb -> bin_eval op x y = RVal v ->
+        pure_eval en (EBin op a b) v (ta ++ tb).
+
+  Lemma pure_eval_sound en e v t : pure_eval en e v t -> forall tr, ev e en tr = (RVal [v], en, tr ++ t).
+  Proof. induction 1 as [v|x v Hl|id a v t _ IH|op a b x y v ta tb _ IHa _ IHb Hop]; intros tr.
+    - rewrite ev_EConst. now rewrite app_nil_r.
+    - rewrite ev_EVar, Hl. now rewrite app_nil_r.
+    - rewrite ev_EProbe. unfold ev1. rewrite IH. cbn [one]. now rewrite app_assoc.
+    - rewrite ev_EBin. unfold ev1. rewrite IHa. cbn [one]. rewrite IHb. cbn [one]. rewrite Hop. now rewrite app_assoc.
+  Qed.
 End Facts.
